@@ -95,7 +95,13 @@ def check(case):  # noqa: PLR0915
     positive = isinstance(f, (int, float)) and not (isinstance(f, float) and math.isnan(f)) and f > 0
     ref = model.evaluate(spec, stream)
     ref_scaled = model.evaluate(spec, [(r, w * f) for r, w in stream]) if positive else ref
-    exact = ref.exact and ref_scaled.exact
+    # exact comparisons need more than representable sums on either side: the products weight*factor (and
+    # entries*factor) themselves must be exact, which holds for coarse dyadic weights and small dyadic factors only
+    from fractions import Fraction  # noqa: PLC0415
+
+    coarse = ref.notes.get("maxden", 1) <= 2**20 and ref_scaled.notes.get("maxden", 1) <= 2**30
+    prods = positive and all(Fraction(w) * Fraction(f) == Fraction(w * f) for _, w in stream if w == w and w > 0)
+    exact = ref.exact and ref_scaled.exact and coarse and (prods or not positive)
     scale = 1.0 + ref.notes["maxabs"]
     pol = norm.Policy(exact=exact, scale=scale)
 
